@@ -46,6 +46,16 @@ def check_instance(inst, F, ctx, extra):
                 ctx.violation('requested-item-missing', inst, f, 'feature `%s` is requested but the derive produced no item named `%s` (items: %s)' % (f, nm, sorted(inst.assoc)[:12]), key='C10/requested-item-missing/%s' % f, construct='src/parser/attr.rs::parse_attrs / src/parser/feature.rs (the feature list)')
             else:
                 ctx.ok('requested-item-present', inst)
+            # a requested struct_name is a documented parameter too: the struct the function returns must carry it
+            if f in ('iter', 'names') and inst.assoc.get(nm) is not None:
+                sn = p.get('struct_name') or (inst.enum_name + ('Iter' if f == 'iter' else 'Names'))
+                out = inst.crate.T(inst.assoc[nm].get('output')) if inst.assoc[nm].get('output') is not None else {}
+                if out.get('path') != inst.mod + '::' + sn:
+                    ctx.violation('requested-item-missing', inst, f, '`%s` returns %s, required the struct named by %s: `%s`' % (
+                        nm, out.get('path', out.get('s')), 'struct_name' if p.get('struct_name') else 'the documented default', sn), key='C10/requested-item-missing/%s.struct_name' % f,
+                        construct='src/generator/names.rs::Names::new (struct names)')
+                else:
+                    ctx.ok('requested-item-present', inst)
     cov = extra.setdefault('cov', set()) if extra is not None else set()
     for f, p in inst.feats.items():
         ctx.by_rule['covers:%s/%s/%s' % (f, p.get('mode', '-'), 'gapless' if inst.gapless else 'holes')] = 1
